@@ -26,6 +26,7 @@ import (
 type c17Scenario struct {
 	Cfg    config.PikeConfig `json:"cfg"`
 	Defect string            `json:"defect"` // "" = valid by construction
+	Sel    int               `json:"sel,omitempty"` // which element received the defect (modulo the list length)
 }
 
 var yamlNames = []string{"n1", "cache", "yes", "null", "~", "1e3", "0x1", "a: b", "- x", "#c", " lead", "trail ", "'q'", `"dq"`, "名字", "on", "123", "true", "x", "abcdefghijklmnopqrst", "a\tb", "{a}", "[b]", "a,b", "%p", "@at", "`bt`", "!tag", "&anchor", "*alias", "|", ">", "key: 'v'", "N", "off", "1_000", "0o7", ".5", "-", "? q"}
@@ -144,75 +145,80 @@ var c17Defects = []string{"dangling-upstream", "dangling-location", "dangling-ca
 	"no-upstream-servers", "no-server-locations", "server-without-cache", "cache-without-name", "healthcheck-without-slash", "missing-hfp"}
 
 // inject returns false when the config has no place for that defect
-func inject(c *config.PikeConfig, d string) bool {
+func inject(c *config.PikeConfig, d string, sel int) bool {
+	li, ui, ci, si := sel%len(c.Locations), sel%len(c.Upstreams), sel%len(c.Caches), 0
+	if len(c.Servers) > 0 {
+		si = sel % len(c.Servers)
+	}
+	_ = si
 	switch d {
 	case "dangling-upstream":
-		c.Locations[0].Upstream = "nowhere"
+		c.Locations[li].Upstream = "nowhere"
 	case "dangling-location":
 		if len(c.Servers) == 0 {
 			return false
 		}
-		c.Servers[0].Locations = append(c.Servers[0].Locations, "nowhere")
+		c.Servers[si].Locations = append(c.Servers[si].Locations, "nowhere")
 	case "dangling-cache":
 		if len(c.Servers) == 0 {
 			return false
 		}
-		c.Servers[len(c.Servers)-1].Cache = "nowhere"
+		c.Servers[si].Cache = "nowhere"
 	case "dangling-compress":
 		if len(c.Servers) == 0 {
 			return false
 		}
-		c.Servers[0].Compress = "nowhere"
+		c.Servers[si].Compress = "nowhere"
 	case "name-too-long":
-		c.Caches[0].Name = "abcdefghijklmnopqrstu" // 21
+		c.Caches[ci].Name = "abcdefghijklmnopqrstu" // 21
 	case "bad-duration-hfp":
-		c.Caches[0].HitForPass = "5 minutes"
+		c.Caches[ci].HitForPass = "5 minutes"
 	case "bad-duration-timeout":
-		c.Locations[0].ProxyTimeout = "30"
+		c.Locations[li].ProxyTimeout = "30"
 	case "bad-size":
 		if len(c.Servers) == 0 {
 			return false
 		}
-		c.Servers[0].CompressMinLength = "1 kilo"
+		c.Servers[si].CompressMinLength = "1 kilo"
 	case "bad-regexp":
 		if len(c.Servers) == 0 {
 			return false
 		}
-		c.Servers[0].CompressContentTypeFilter = "(unclosed"
+		c.Servers[si].CompressContentTypeFilter = "(unclosed"
 	case "bad-policy":
-		c.Upstreams[0].Policy = "fastest"
+		c.Upstreams[ui].Policy = "fastest"
 	case "bad-addr-scheme":
-		c.Upstreams[0].Servers[0].Addr = "127.0.0.1:3000"
+		c.Upstreams[ui].Servers[0].Addr = "127.0.0.1:3000"
 	case "prefix-without-slash":
-		c.Locations[0].Prefixes = append(c.Locations[0].Prefixes, "api")
+		c.Locations[li].Prefixes = append(c.Locations[li].Prefixes, "api")
 	case "divide-no-colon":
-		c.Locations[0].ReqHeaders = append(c.Locations[0].ReqHeaders, "X-Key value")
+		c.Locations[li].ReqHeaders = append(c.Locations[li].ReqHeaders, "X-Key value")
 	case "divide-two-colons":
-		c.Locations[0].RespHeaders = append(c.Locations[0].RespHeaders, "X-Time:12:30")
+		c.Locations[li].RespHeaders = append(c.Locations[li].RespHeaders, "X-Time:12:30")
 	case "bad-hostname":
-		c.Locations[0].Hosts = append(c.Locations[0].Hosts, "bad host/name")
+		c.Locations[li].Hosts = append(c.Locations[li].Hosts, "bad host/name")
 	case "size-zero":
-		c.Caches[0].Size = 0
+		c.Caches[ci].Size = 0
 	case "size-negative":
-		c.Caches[0].Size = -5
+		c.Caches[ci].Size = -5
 	case "no-upstream-servers":
-		c.Upstreams[0].Servers = nil
+		c.Upstreams[ui].Servers = nil
 	case "no-server-locations":
 		if len(c.Servers) == 0 {
 			return false
 		}
-		c.Servers[0].Locations = nil
+		c.Servers[si].Locations = nil
 	case "server-without-cache":
 		if len(c.Servers) == 0 {
 			return false
 		}
-		c.Servers[0].Cache = ""
+		c.Servers[si].Cache = ""
 	case "cache-without-name":
-		c.Caches[0].Name = ""
+		c.Caches[ci].Name = ""
 	case "healthcheck-without-slash":
-		c.Upstreams[0].HealthCheck = "ping"
+		c.Upstreams[ui].HealthCheck = "ping"
 	case "missing-hfp":
-		c.Caches[0].HitForPass = ""
+		c.Caches[ci].HitForPass = ""
 	}
 	return true
 }
@@ -504,7 +510,8 @@ func genC17(t *rapid.T) c17Scenario {
 	sc := c17Scenario{Cfg: genValidConfig(t)}
 	if rapid.IntRange(0, 2).Draw(t, "withDefect") == 0 {
 		d := rapid.SampledFrom(c17Defects).Draw(t, "defect")
-		if inject(&sc.Cfg, d) {
+		sc.Sel = rapid.IntRange(0, 11).Draw(t, "defectAt")
+		if inject(&sc.Cfg, d, sc.Sel) {
 			sc.Defect = d
 		}
 	}
